@@ -260,3 +260,8 @@ impl From<BroadcastStreamRecvError> for SubscriptionError {
         SubscriptionError::Lagged(skipped)
     }
 }
+
+#[cfg(all(test, lumina_verif))]
+mod verif_native {
+    include!(concat!(env!("LUMINA_VERIF_DIR"), "/native/node/subs.rs"));
+}
